@@ -424,21 +424,30 @@ def isActorEv : Ev → Bool
   | .stopEnd _ | .tellResult _ => true
   | _ => false
 
-def disableForever (ev : List Ev) : Bool :=
-  match idxOf? isDisable ev with
-  | some p => !(anyFrom isRunPoll ev p)
-  | none => true
+/-- fold state: on_run has returned Ok(false); an on_run error is waiting for its on_stop; ok so far -/
+structure R8 where
+  disabled : Bool := false
+  pendErr : Bool := false
+  ok : Bool := true
+  deriving DecidableEq, Repr
 
-/-- after an on_run error the very next hook event is on_stop(killed=false) -/
-def errFails (ev : List Ev) : Bool :=
-  match idxOf? isRunErr ev with
-  | some p => (match ((ev.drop (p + 1)).filter isActorEv).head? with
-               | some (.stopStart false) => true
-               | none => true
-               | _ => false)
-  | none => true
+def r8Step (m : R8) : Ev → R8
+  | .runEnd _ .disable => { m with disabled := true, ok := m.ok && !m.pendErr }
+  | .runEnd _ .err => { m with pendErr := true, ok := m.ok && !m.pendErr }
+  | .runEnd _ _ => { m with ok := m.ok && !m.pendErr }
+  | .runPoll _ => { m with ok := m.ok && !m.disabled && !m.pendErr }
+  | .stopStart false => { m with pendErr := false }
+  | .stopStart true => { m with ok := m.ok && !m.pendErr }
+  | .startEnd _ | .handlerStart _ | .handlerEnd _ _ | .stopEnd _ | .tellResult _ => { m with ok := m.ok && !m.pendErr }
+  | _ => m
 
-def ok (t : Trace) : Bool := runOnlyWhenEmpty t.ev && disableForever t.ev && errFails t.ev
+def r8 (ev : List Ev) : R8 := ev.foldl r8Step {}
+
+/-- after Ok(false) the on_run body never executes again; after Err the very next hook event is
+    on_stop(killed = false) -/
+def disableForeverAndErrFails (ev : List Ev) : Bool := (r8 ev).ok && !(r8 ev).pendErr
+
+def ok (t : Trace) : Bool := runOnlyWhenEmpty t.ev && disableForeverAndErrFails t.ev
 end C08
 
 /-! ### C09 — capacity is a hard bound with waiting back-pressure -/
